@@ -1,12 +1,14 @@
 import KoordVerif.Model.C06
 import KoordVerif.Proofs.C06Numa
 import KoordVerif.Proofs.C06Ledger
+import KoordVerif.Proofs.C06Pick
 /-
 C06 — CPU and NUMA allocations are exact, disjoint and within capacity.
 
 Layer A (NUMA split, `tryBestToDistributeEvenly` per resource name) and Layer B (ledger,
-`NodeAllocation`) are proved for ALL inputs / histories of the model.  Layer C (picker) : see the
-end of the file.  Amounts are milli-units; `isum` is the list sum.
+`NodeAllocation`) are proved for ALL inputs / histories of the model.  Layer C (picker): the
+accumulator and every take-loop of `takeCPUs` are proved to keep the contract; the candidate
+generators and the final assembly are not (see the end of the file).  Amounts are milli-units; `isum` is the list sum.
 -/
 namespace KoordVerif.C06
 
@@ -278,5 +280,71 @@ example :
   intro op hop
   simp at hop
   rcases hop with rfl | rfl | rfl | rfl | rfl <;> simp [OpOK, PodOK]
+
+/-! ## Layer C — picker (`takeCPUs`, Model/C06Pick.lean)
+
+Full statement aimed at (DESIGN §4 C06):
+
+  take_exact : takeCPUs ctx full avail allocated n = some S → 1 ≤ n →
+                 S.length = n ∧ S.Nodup ∧ ∀ c ∈ S, c ∈ avail            (same for takePreferredCPUs)
+
+Proved below (`…_partial`): the accumulator invariant `Good avail n` (result duplicate-free, inside
+`avail`, `|result| + numCPUsNeeded = n`, `numCPUsNeeded ≥ 0`) is kept by `take` and by EVERY loop
+through which `takeCPUs` takes CPUs — prefix take, whole-socket phase, core-by-core phase (this
+is where the guard added by the repair is needed), one-by-one phase — for ALL candidate lists
+that are duplicate-free, drawn from `avail`, new to the result and (when computed once and
+consumed in sequence) pairwise disjoint; and a `Good` accumulator that reports satisfied holds
+exactly `n` CPUs.  NOT proved: that the lists produced by `freeCoresIn` / `freeCPUsIn` /
+`freeCPUsAll` / `spreadCPUs` meet those premises (group-by + sort permutation lemmas), and the
+assembly over the phase skeleton.  Until then the end-to-end contract of the picker rests on the
+oracle (exact count, ⊆ free) and on the exact-CPU-id correspondence of the model. -/
+
+/-- `take` keeps the accumulator invariant for any admissible candidate list that fits. -/
+theorem take_exact_partial_take (ctx : PickCtx) {avail : List Nat} {n : Int} {a : Acc}
+    (h : Good avail n a) (l : List Nat) (hl : ListOK avail a l) (hfit : (l.length : Int) ≤ a.need) :
+    Good avail n (a.take ctx l) := take_good ctx h l hl hfit
+
+/-- a satisfied `Good` accumulator holds exactly `n` distinct CPUs of the free set. -/
+theorem take_exact_partial_done {avail : List Nat} {n : Int} {a : Acc} (h : Good avail n a)
+    (hs : a.isSatisfied = true) :
+    (a.result.length : Int) = n ∧ a.result.Nodup ∧ ∀ c ∈ a.result, c ∈ avail := good_done h hs
+
+/-- `acc.take(cpus[:acc.numCPUsNeeded]...)` on a list with at least that many CPUs. -/
+theorem take_exact_partial_prefix (ctx : PickCtx) {avail : List Nat} {n : Int} {a : Acc}
+    (h : Good avail n a) (l : List Nat) (hl : ListOK avail a l) (hfit : (l.length : Int) ≥ a.need) :
+    ((a.take ctx (l.take a.need.toNat)).result.length : Int) = n ∧
+    (a.take ctx (l.take a.need.toNat)).result.Nodup ∧
+    ∀ c ∈ (a.take ctx (l.take a.need.toNat)).result, c ∈ avail := take_prefix_exact ctx h l hl hfit
+
+/-- whole-socket phase: any number of sockets, any list sizes. -/
+theorem take_exact_partial_whole (ctx : PickCtx) {avail : List Nat} {n : Int} (ls : List (List Nat))
+    (a : Acc) (h : Good avail n a) (hl : ListsOK avail a ls) :
+    Good avail n (takeWhole ctx a ls []).2.1 ∧
+    ((takeWhole ctx a ls []).1 = true → (takeWhole ctx a ls []).2.1.isSatisfied = true) ∧
+    ListsOK avail (takeWhole ctx a ls []).2.1 (takeWhole ctx a ls []).2.2 :=
+  takeWhole_good ctx ls a [] h (by simpa using hl)
+
+/-- core-by-core phase over the unsatisfied sockets, with the guard of the repaired code. -/
+theorem take_exact_partial_cores (ctx : PickCtx) {avail : List Nat} {n : Int} (ls : List (List Nat))
+    (a : Acc) (h : Good avail n a) (hl : ListsOK avail a ls) :
+    Good avail n (takeCores ctx a ls).2 ∧
+    ((takeCores ctx a ls).1 = true → (takeCores ctx a ls).2.isSatisfied = true) :=
+  takeCores_good ctx ls a h hl
+
+/-- one-by-one phase. -/
+theorem take_exact_partial_singles (ctx : PickCtx) {avail : List Nat} {n : Int} (cs : List Nat)
+    (a : Acc) (h : Good avail n a) (hl : ListOK avail a cs) :
+    Good avail n (takeSingles ctx a cs).2 ∧
+    ((takeSingles ctx a cs).1 = true → (takeSingles ctx a cs).2.isSatisfied = true) :=
+  takeSingles_good ctx cs a h hl
+
+-- non-vacuity + regression: 3 sockets x 4 cores x 2 threads, free {2-7, 8-11, 16-19}, request 9 CPUs with
+-- FullPCPUs (the input on which the unrepaired loop returned 10 CPUs) gives exactly 9 CPUs of the free set.
+example :
+    let topo : List CpuI := (List.range 24).map fun c =>
+      { cpu := c, core := c / 2, node := c / 8, socket := c / 8 }
+    let ctx : PickCtx := { topo := topo, cpc := 2, cpn := 8, cps := 8, maxRef := 1, excl := 1, most := true }
+    let avail := [2, 3, 4, 5, 6, 7, 8, 9, 10, 11, 16, 17, 18, 19]
+    (takeCPUs ctx true avail [] 9).map (fun S => pickCheck avail 9 S) = some true := by decide
 
 end KoordVerif.C06
